@@ -231,7 +231,13 @@ class Box:
     """A per-run durable directory plus helpers for snapshots and incarnations."""
 
     def __init__(self, optable: str, seed: int, prefix: str = 'crashbox-'):
-        self.base = tempfile.mkdtemp(prefix=prefix, dir=SCRATCH_PARENT)
+        # the directory name is a function of the seed (path strings are dictionary keys all over the place); only when
+        # that name is taken - the same seed running elsewhere at this moment - a random one is used
+        self.base = os.path.join(SCRATCH_PARENT or tempfile.gettempdir(), f'{prefix}{seed}')
+        try:
+            os.mkdir(self.base, 0o700)
+        except FileExistsError:
+            self.base = tempfile.mkdtemp(prefix=prefix, dir=SCRATCH_PARENT)
         self.root = os.path.join(self.base, 'root')
         os.mkdir(self.root)
         self.optable = optable
